@@ -1,4 +1,5 @@
 import RpycModel.Async.Lemmas
+import RpycModel.Gen.Async
 /-
 C15 — asynchronous results: pending until the reply arrives or the expiry passes, whichever happens
 first; that outcome is final; callbacks run exactly once, in registration order (at once if registered
@@ -292,6 +293,21 @@ theorem sync_timeout_exact (w : World) (τ : Option Int) (h : (syncRequest w τ)
       · left; rw [d]; omega
       · right; exact d
     · simp [asyncRequest, setExpiry, Timeout.make, ht] at a
+
+/-! ### generated facts about the source (regenerated from /repo on every run) -/
+
+/-- the slots of `AsyncResult` are exactly the state the model has: `_is_ready`, `_is_exc`, `_obj`,
+`_callbacks`, `_ttl` (the fields of `AR`) and `_conn` (the surrounding `World`); a new slot is new state -/
+theorem slots_are_modelled :
+    Gen.Async.slots = ["_conn", "_is_ready", "_is_exc", "_callbacks", "_obj", "_ttl"] := by decide
+
+/-- with the *default* configuration (`sync_request_timeout` as found in the source) a synchronous request
+that fails with the timeout error does so no earlier than that many ticks after it was issued -/
+theorem default_sync_timeout (w : World) (h : (syncRequest w Gen.Async.syncRequestTimeout).2 = .timeout) :
+    ∃ t : Int, Gen.Async.syncRequestTimeout = some t ∧ 0 ≤ t
+      ∧ w.now + t.toNat ≤ (syncRequest w Gen.Async.syncRequestTimeout).1.now := by
+  obtain ⟨t, h1, h2, h3, _⟩ := sync_timeout_exact w _ h
+  exact ⟨t, h1, h2, h3⟩
 
 /-! ### re-arming (outside the statement's events, recorded for completeness) -/
 
